@@ -45,6 +45,11 @@ class RateTableAdapter:
                         Y=Money.new_unit('YYY', 'y', 2))
         self.today = [datetime.date(*DATES['d2'])]
         self.conv = MoneyConverter(self.cur['B'], get_dflt_effective_date=lambda: self.today[0])
+        import decimalfp
+        from decimalfp import ROUNDING
+        self.mode = ROUNDING.ROUND_HALF_UP            # a non-default mode: must survive every call
+        decimalfp.set_dflt_rounding_mode(self.mode)
+        self.known = sorted(u.symbol for u in Money.units())
         self.spellings = spellings
         self.speclists = speclists
         self.k = 0
@@ -65,7 +70,7 @@ class RateTableAdapter:
                 self.k += 1
                 rep = ['dec', 'frac', 'int'][self.k % 3]
                 a = mk_amount(amt, rep if not (rep == 'int' and amt[1] != 1) else 'dec')
-                specs.append((self.cur[c], a, mult))
+                specs.append((self.cur[c] if c != 'CHFs' else 'CHF', a, mult))
             try:
                 self.conv.update(spelling_obj(self.spellings[sp]), specs)
                 ok = True
@@ -82,6 +87,16 @@ class RateTableAdapter:
             self.today[0] = datetime.date(*DATES[args[0]])
         else:
             raise RuntimeError('unknown action ' + act)
+        # nothing outside the converter changes, whatever the outcome: the currencies known to Money, the configured
+        # default rounding mode
+        import decimalfp
+        known = sorted(u.symbol for u in self.Money.units())
+        if known != self.known:
+            devs.append(dict(sig='RateTable:%s:currencies' % act, what='currencies known to Money changed from %s to %s' % (self.known, known)))
+        if decimalfp.get_dflt_rounding_mode() != self.mode:
+            devs.append(dict(sig='RateTable:%s:rounding-mode' % act, what='default rounding mode is now %s (was %s)' % (
+                decimalfp.get_dflt_rounding_mode(), self.mode)))
+            decimalfp.set_dflt_rounding_mode(self.mode)
         # every lookup
         tag = 'after-rejected' if not dst['out']['ok'] else 'lookup'
         bad = 0
